@@ -375,7 +375,11 @@ class BufferedFile(ClosingContextManager):
         """
         # data still sitting in the write buffer has been written as far as
         # the caller is concerned.
-        return self._pos + self._wbuffer.tell()
+        pending = self._wbuffer.tell()
+        if pending and (self._flags & self.FLAG_APPEND):
+            # ...and in append mode it lands at the end, wherever we are.
+            return self._size + pending
+        return self._pos + pending
 
     def write(self, data):
         """
